@@ -14,11 +14,13 @@ import (
 	"os"
 	"regexp"
 	"runtime"
+	"runtime/debug"
 	"runtime/metrics"
 	"sort"
 	"strings"
 	"syscall"
 	"time"
+	"unsafe"
 
 	"github.com/peterstace/simplefeatures/geom"
 	vs "github.com/peterstace/simplefeatures/verifsim"
@@ -30,12 +32,19 @@ func main() {
 	if len(os.Args) >= 2 && os.Args[1] == "worker" {
 		// Address-space ceiling: an out-of-memory abort must kill this
 		// sacrificial process, not the machine.
-		lim := syscall.Rlimit{Cur: 2 << 30, Max: 2 << 30}
+		// 4 GiB: a Go process needs ~1 GiB of address space before it has
+		// allocated anything, and a long-lived worker's heap arenas (64 MiB
+		// each, never unmapped) crept up to the earlier 2 GiB ceiling and
+		// died without any decoder being at fault.
+		debug.SetGCPercent(50)
+		lim := syscall.Rlimit{Cur: 4 << 30, Max: 4 << 30}
 		if err := syscall.Setrlimit(syscall.RLIMIT_AS, &lim); err != nil {
 			fmt.Fprintln(os.Stderr, "c08 worker: setrlimit:", err)
 			os.Exit(2)
 		}
 	}
+	initInputRegion()
+	debug.SetPanicOnFault(true)
 	simkit.Main(&engine{})
 }
 
@@ -87,7 +96,7 @@ func (*engine) Describe() simkit.Description {
 		Assumptions: []string{
 			fmt.Sprintf("Allocation policy: one decoder call may allocate at most %d + %d*len(input) heap bytes (TotalAlloc delta, exact via ReadMemStats when the cheap runtime/metrics reading exceeds a quarter of the bound).", allocBase, allocPerByte),
 			fmt.Sprintf("Step budget: one decoder call may pass at most %d + %d*len(input) yield points (function entries + loop iterations of geom/rtree).", stepBase, stepPerByte),
-			"Worker address-space ceiling RLIMIT_AS = 2 GiB; an out-of-memory abort, stack exhaustion or any runtime fatal error is observed as worker death and confirmed by re-execution.",
+			"Worker address-space ceiling RLIMIT_AS = 4 GiB; an out-of-memory abort, stack exhaustion or any runtime fatal error is observed as worker death and confirmed by re-execution.",
 			"Structural offsets come from the harness's own WKB/TWKB scanners and text lexer, not from the library.",
 			"Coverage-guided mutation is not performed (coverage_guided=false).",
 		},
@@ -174,7 +183,7 @@ func init() {
 	}})
 	add(decoder{"Geometry.Scan(string)", fWKB, false, true, func(in []byte) (geom.Geometry, bool, error) {
 		var g geom.Geometry
-		err := g.Scan(string(in))
+		err := g.Scan(str(in))
 		return g, err == nil, err
 	}})
 	add(decoder{"NullGeometry.Scan", fWKB, false, true, func(in []byte) (geom.Geometry, bool, error) {
@@ -186,11 +195,11 @@ func init() {
 		add(decoder{tn + ".Scan", fWKB, false, true, concrete(tn, true)})
 	}
 	add(decoder{"UnmarshalWKT", fWKT, true, true, func(in []byte) (geom.Geometry, bool, error) {
-		g, err := geom.UnmarshalWKT(string(in))
+		g, err := geom.UnmarshalWKT(str(in))
 		return g, err == nil, err
 	}})
 	add(decoder{"UnmarshalWKT/NoValidate", fWKT, true, false, func(in []byte) (geom.Geometry, bool, error) {
-		g, err := geom.UnmarshalWKT(string(in), geom.NoValidate{})
+		g, err := geom.UnmarshalWKT(str(in), geom.NoValidate{})
 		return g, err == nil, err
 	}})
 	add(decoder{"UnmarshalGeoJSON", fGeoJSON, true, true, func(in []byte) (geom.Geometry, bool, error) {
@@ -267,6 +276,50 @@ func init() {
 		err := json.Unmarshal(in, &fc)
 		return geom.Geometry{}, false, err
 	}})
+}
+
+// ------------------------------------------------------------- frozen input
+
+// The input handed to a decoder lives in an mmap'ed region that is read-only
+// while the decoder runs (untrusted bytes often come from a read-only mapping
+// of a file, and a Go string's bytes may be in read-only memory): a decoder
+// that stores into its input, however briefly, faults at the store, which
+// debug.SetPanicOnFault turns into a recoverable panic.
+var inputRegion []byte
+
+func initInputRegion() {
+	mem, err := syscall.Mmap(-1, 0, 256<<10, syscall.PROT_READ|syscall.PROT_WRITE, syscall.MAP_ANON|syscall.MAP_PRIVATE)
+	if err == nil {
+		inputRegion = mem
+	}
+}
+
+// frozen copies in into the region and write-protects it.
+func frozen(in []byte) []byte {
+	if inputRegion == nil || len(in) > len(inputRegion) {
+		return in
+	}
+	syscall.Mprotect(inputRegion, syscall.PROT_READ|syscall.PROT_WRITE)
+	copy(inputRegion, in)
+	syscall.Mprotect(inputRegion, syscall.PROT_READ)
+	return inputRegion[:len(in):len(in)]
+}
+
+func inInputRegion(addr uintptr) bool {
+	if inputRegion == nil {
+		return false
+	}
+	base := uintptr(unsafe.Pointer(&inputRegion[0]))
+	return addr >= base && addr < base+uintptr(len(inputRegion))
+}
+
+// str views b as a string without copying (so that a string argument points
+// into the frozen region too).
+func str(b []byte) string {
+	if len(b) == 0 {
+		return ""
+	}
+	return unsafe.String(&b[0], len(b))
 }
 
 // ------------------------------------------------------------- oracle
@@ -368,8 +421,9 @@ func (c *runCtx) check(decIdx int, in []byte) string {
 	var g geom.Geometry
 	var has bool
 	var err error
+	fin := frozen(in)
 	a0 := allocNow()
-	steps, exceeded, pv, stack := vs.Solo(stepBudget(len(in)), func() { g, has, err = d.fn(in) })
+	steps, exceeded, pv, stack := vs.Solo(stepBudget(len(in)), func() { g, has, err = d.fn(fin) })
 	delta := allocNow() - a0
 	c.res.Stats["decodes"]++
 	c.res.Stats["logical_steps"] += steps
@@ -381,13 +435,19 @@ func (c *runCtx) check(decIdx int, in []byte) string {
 		return "step-budget"
 	}
 	if pv != nil {
+		if re, ok := pv.(runtime.Error); ok {
+			if fa, ok := re.(interface{ Addr() uintptr }); ok && inInputRegion(fa.Addr()) {
+				c.fail("input-store", decIdx, topFrame(stack), in, fmt.Sprintf("decoder stored into its input (read-only memory: a mapped file or a string's bytes): %v\n%s", pv, clip(stack, 1500)))
+				return "input-store"
+			}
+		}
 		c.fail("panic", decIdx, topFrame(stack), in, fmt.Sprintf("panic: %v\n%s", pv, clip(stack, 1500)))
 		return "panic"
 	}
 	bound := allocBound(len(in))
 	if delta > bound/4 {
 		c.res.Stats["exact_alloc_measurements"]++
-		ex := exactAlloc(func() { vs.Solo(stepBudget(len(in)), func() { d.fn(in) }) })
+		ex := exactAlloc(func() { vs.Solo(stepBudget(len(in)), func() { d.fn(fin) }) })
 		if ex > bound {
 			c.fail("over-allocation", decIdx, "alloc-bound", in, fmt.Sprintf("allocated %d heap bytes for a %d-byte input (bound %d)", ex, len(in), bound))
 			return "over-allocation"
